@@ -12,6 +12,7 @@ import copy
 import numpy as np
 
 from campaigns.history import HistoryCampaign
+from simkit.core import Violation
 from simkit.world import Monitor, World, make_world
 
 
@@ -98,7 +99,7 @@ def twin_scenario(w: World, nsteps: int) -> dict:
 
     def setlabels(ms, path):
         t = ms["type"]
-        if t == "sum":
+        if t in ("sum", "wrap"):
             for i, it in enumerate(ms["items"]):
                 setlabels(it, f"{path}.{i}")
         elif t == "mul":
@@ -209,6 +210,7 @@ class C03(HistoryCampaign):
         "calc_styles": ["caching", "caching", "stateless", "minimal"],
         "scales": ["moderate"], "constraints": 0.4, "arrays": 0.5, "composites": 0.35, "extended": 0.1,
         "p_force": [0.0, 0.4, 0.8], "p_veto": [0.0, 0.15, 0.4], "preselect": 0.2, "steps_max": 10,
+        "wrap_exch": 0.08, "wrap_exch_free": 0.03,
     }
     rule = ("one evaluation = one generated deployment (driver x move table x labels x arrays x constraints x "
             "calculator style x fault tapes) stepped trial by trial; distinct = distinct (driver, move kind, "
@@ -217,6 +219,23 @@ class C03(HistoryCampaign):
     assumptions = ["forced verdicts come from a user-side criteria that wraps the real one (the Criteria protocol is open)",
                    "a missing momenta array is read as all-zero, as ASE does",
                    "calculators whose known defects belong to C04 (neighbour-list styles) are not used here"]
+
+    def execute(self, sc):
+        packed = super().execute(sc)
+        if sc.get("free_exchange_composite") and (packed["violations"] or packed["foreign"]):
+            # Known root cause (DESIGN.md 11, KF-C03-1): the exchange context keeps ONE flat list of added and ONE of
+            # deleted indices per trial; when independently deciding exchange moves of a plain composite insert and
+            # then delete (or delete twice) in the same trial the lists mix numberings.  The symptoms vary (IndexError
+            # in revert_state, ValueError in reinsert_atoms, wrong atoms deleted, stale labels), so every failure of a
+            # run holding such a table is reported under one signature.
+            first = (packed["violations"] or [None])[0]
+            detail = first["detail"] if first else str(packed["foreign"][0])
+            at = first["at"] if first else ""
+            packed["violations"] = [Violation("C03", "independent_exchange_moves_in_one_trial_corrupt_bookkeeping",
+                                              "driver=GrandCanonical|table=plain_composite_of_exchange_moves",
+                                              f"first symptom: {first['signature'] if first else packed['foreign'][0]}\n{detail}", at).to_json()]
+            packed["foreign"] = []
+        return packed
 
     def budget(self, tier):
         return {"runs": 6000, "wall_s": 170} if tier == "quick" else {"runs": 600000, "wall_s": 1500}
